@@ -3,4 +3,4 @@
 import sys, os
 sys.path.insert(0, os.path.dirname(os.path.abspath(__file__)))
 import crates_common
-if __name__ == '__main__': crates_common.run('C07', r'C07', gens=(2,))
+if __name__ == '__main__': crates_common.run('C07', r'C07', gens=(2, 1))
